@@ -656,7 +656,7 @@ class Check(core.PropertyCheck):
         # beyond the table: other concrete strings, sizes and chunkings, two classes combined in one message
         rng = random.Random(ctx.seed + 6)
         base = list(all_cases())
-        for k in range(600 if ctx.quick else 12000):
+        for k in range(600 if ctx.quick else 8000):
             c = dict(rng.choice(base))
             c["var"] = rng.randrange(1 << 30)
             yield core.Scenario(c, source="random")
